@@ -127,6 +127,7 @@ def extra(ctx, out, quick_n=30, thorough_n=400):
     dist = {'pairs': 0, 'shapes': {}, 'out_of_language': 0, 'impl_errors_perm': {}, 'moved_declarations': 0,
             'late_treasury_pairs': 0}
     distinct = set()
+    base_seen = set()
     for prog, perm, label in gen_pairs(ctx, n, K):
         try:
             names = _names(prog)
@@ -149,6 +150,11 @@ def extra(ctx, out, quick_n=30, thorough_n=400):
         metas.append(meta)
         main_cases.append(gen_main.emit_case(cq, res))
         main_metas.append(meta)
+        if id(prog) not in base_seen:
+            # the base program as well (so that model = implementation on BOTH programs of the pair comes from this stream)
+            base_seen.add(id(prog))
+            main_cases.append(gen_main.emit_case(cp, gen_main.run_impl(prog)))
+            main_metas.append({'prog': _strip(prog), 'perm': _strip(prog)})
         if not label.startswith('damaged') and res[0] == 'ok':
             ok_cases.append('order_ok %s && order_ok %s' % (cp, cq))
             ok_metas.append(meta)
